@@ -26,7 +26,7 @@ RULE = ("product of payload length x API (download/force_segment/open wb with si
         "step) of the client/server product; non-trivial = transfers with at least one segment frame or a predecessor")
 ASSUMPTIONS = [
     "the reference server is written from CiA 301 and accepts every legal client framing (short non-final segments, either size indication)",
-    "raw mode (buffering=0): the caller loop re-offers the unsent tail; with a declared size <= 4 the whole payload is given in one write()",
+    "raw mode (buffering=0): the caller loop re-offers the unsent tail",
     "text mode payloads are printable ASCII plus LF, no CR (newline translation is Python's, not canopen's)",
     "expedited upload without size indication and fewer than 4 data bytes is only judged where the dictionary declares a fixed-size number",
     "lengths > 64 are covered for single-write and 1-cut splits at the 7/1024 multiples only (thorough tier)",
@@ -70,6 +70,8 @@ def cases(tier, seed):
     for n in list(range(0, N + 1)) + (big if tier == "thorough" else []):
         for api in ("download", "force", "open_size", "open_nosize", "open_size_force", "text_size", "text_nosize"):
             bufs = (1, 1024) if api.startswith("text") else ((7,) if api in ("download", "force") else (0, 7, 8, 1024))
+            if api == "open_size" and 1 <= n <= 8:
+                bufs += (2, 3)       # buffers smaller than an expedited payload
             for buffering in bufs:
                 preds = PREDS if (n <= 16 and api in ("download", "open_nosize", "open_size")
                                                                and buffering in (7, 0)) else \
@@ -254,6 +256,25 @@ def run_pred(node, srv, case, st):
     return True
 
 
+class _no_spin:
+    """A raw stream that accepts nothing makes io.BufferedWriter spin in its flush loop (also the one of close());
+    the alarm is re-armed so that the flush on leaving the with-block is interrupted as well."""
+
+    def __enter__(self):
+        import signal
+
+        def stuck(*a):
+            raise AssertionError("buffered write makes no progress")
+        self.old = signal.signal(signal.SIGALRM, stuck)
+        signal.setitimer(signal.ITIMER_REAL, 5.0, 0.5)
+
+    def __exit__(self, *exc):
+        import signal
+        signal.setitimer(signal.ITIMER_REAL, 0)
+        signal.signal(signal.SIGALRM, self.old)
+        return False
+
+
 def do_download(node, case, payload, split):
     api, buffering = case["api"], case["buf"]
     idx, sub = case["addr"]
@@ -276,15 +297,13 @@ def do_download(node, case, payload, split):
             kw["size"] = n
         if api == "open_size_force":
             kw["force_segment"] = True
-        with node.sdo.open(idx, sub, "wb", buffering=buffering, **kw) as fp:
+        with _no_spin(), node.sdo.open(idx, sub, "wb", buffering=buffering, **kw) as fp:
             if buffering == 0:
-                expedited = api == "open_size" and 1 <= n <= 4
-                chunks = [payload] if expedited else []
-                if not expedited:
-                    off = 0
-                    for k in split:
-                        chunks.append(payload[off:off + k])
-                        off += k
+                chunks = []
+                off = 0
+                for k in split:
+                    chunks.append(payload[off:off + k])
+                    off += k
                 for chunk in chunks:
                     if case.get("empties"):
                         fp.write(b"")            # an empty write is a legal call and must not disturb the transfer
